@@ -14,7 +14,7 @@ import math
 import operator
 from copy import copy
 from collections.abc import Iterator
-from decimal import Decimal, DivisionByZero
+from decimal import Decimal, DivisionByZero, InvalidOperation
 from typing import cast, NoReturn
 
 import elementpath.aliases as ta
@@ -656,16 +656,15 @@ def evaluate__idiv_operator(self: XPathToken, context: ta.ContextType = None) ->
 
     try:
         result = op1 // op2
-    except (ZeroDivisionError, DivisionByZero):
+        if result >= 0 or isinstance(op1, Decimal) or \
+                isinstance(op2, Decimal) or op1 % op2 == 0:
+            return int(result)
+        else:
+            return int(result) + 1  # floor division of an inexact negative quotient
+    except (ZeroDivisionError, DivisionByZero, InvalidOperation):
         if isinstance(context, XPathSchemaContext):
             return 1
         raise self.error('FOAR0001') from None
-    else:
-        if result >= 0 or isinstance(op1, Decimal) or \
-                isinstance(op2, Decimal) or abs(op1) == abs(op2):
-            return int(result)
-        else:
-            return int(result) + 1
 
 
 # Resolve the intrinsic ambiguity of some infix operators
